@@ -8,6 +8,16 @@ pub mod net;
 pub mod reader_rig;
 pub mod writer_rig;
 
+#[cfg(feature = "security")]
+pub mod access_rig;
+#[cfg(feature = "security")]
+pub mod auth_rig;
+#[cfg(feature = "security")]
+pub mod crypto_rig;
+#[cfg(feature = "security")]
+pub mod gate_rig;
+pub mod wire_rig;
+
 use std::sync::OnceLock;
 
 use serde::{Deserialize, Serialize};
